@@ -209,6 +209,22 @@ class HoistSetupCallsIntoConditionals(RewritePattern):
             if block.get_operation_index(launch_op) < block.get_operation_index(op):
                 return
 
+        # the values we set up must already be available inside the branches,
+        # i.e. be defined in front of the scf.if:
+        if_op = op.in_state.owner
+        for val in op.values:
+            if not isinstance(val, OpResult):
+                continue
+            # find the op at the level of the value's definition that holds the scf.if
+            ancestor = if_op
+            while ancestor is not None and ancestor.parent_block() is not val.owner.parent_block():
+                ancestor = ancestor.parent_op()
+            block = val.owner.parent_block()
+            if ancestor is None or block is None:
+                return
+            if block.get_operation_index(val.owner) > block.get_operation_index(ancestor):
+                return
+
         # Step 2: Clone the op into the end of both branches
         for region in op.in_state.owner.regions:
             # grab the yield op:
